@@ -449,6 +449,45 @@ func buildC01(tier string) *core.Plan {
 	// what a child ADDS (a new key, an appended list entry) arrives unchanged, whatever it is made of
 	awkward := []any{"\nx", "\tq\n", " lead", "x\n", "\n", map[string]any{"<<": map[string]any{"k": 1}}, map[string]any{"s": "\n  x\n y", "t": []any{"\nitem"}},
 		1.0, 2.5, 1e21, math.MaxInt64, "", "<<", "null", "~", "1", []any{}, map[string]any{}, []any{[]any{"\n"}}, strings.Repeat("long ", 3000), "---", "a: b", "- x"}
+	// deep and wide containers (recursion depth, map sizes past small-map optimisations, long lists)
+	deep := func(leaf any) any {
+		var v any = leaf
+		for i := 0; i < 12; i++ {
+			if i%3 == 2 {
+				v = []any{v}
+			} else {
+				v = map[string]any{fmt.Sprintf("d%d", i): v, "side": i}
+			}
+		}
+		return v
+	}
+	wide := map[string]any{}
+	longList := []any{}
+	for i := 0; i < 120; i++ {
+		wide[fmt.Sprintf("k%03d", i)] = i
+		longList = append(longList, map[string]any{"id": i, "v": "x"})
+	}
+	awkward = append(awkward, deep(1), wide, longList)
+	bigSpace := core.Space{Name: "deep-and-wide-containers", N: 6,
+		Desc: func(i int64) any {
+			return []string{"deep leaf override", "deep added sibling", "wide override of one key", "wide delete of one key", "long list $match edit of one entry", "long list $delete of one entry"}[i]
+		},
+		Run: func(c *core.Ctx, i int64) {
+			switch i {
+			case 0:
+				c01Pair(c, "refMerge-big", map[string]any{"r": deep(1)}, map[string]any{"r": deep(2)})
+			case 1:
+				c01Pair(c, "refMerge-big", map[string]any{"r": deep(1)}, map[string]any{"r": map[string]any{"d11": map[string]any{"added": true}}})
+			case 2:
+				c01Pair(c, "refMerge-big", map[string]any{"w": core.Clone(wide)}, map[string]any{"w": map[string]any{"k057": "new", "k119": 0, "k120": "added"}})
+			case 3:
+				c01Pair(c, "refMerge-big", map[string]any{"w": core.Clone(wide)}, map[string]any{"w": map[string]any{"k000": "$delete", "k064": "$delete"}})
+			case 4:
+				c01Pair(c, "refMerge-big", map[string]any{"l": core.Clone(longList)}, map[string]any{"l": []any{map[string]any{"$match": map[string]any{"id": 119}, "v": "edited"}, map[string]any{"$match": map[string]any{"id": 0}, "w": 1}}})
+			case 5:
+				c01Pair(c, "refMerge-big", map[string]any{"l": core.Clone(longList)}, map[string]any{"l": []any{map[string]any{"$delete": map[string]any{"id": 64}}, map[string]any{"id": 500}}})
+			}
+		}}
 	addSpace := core.Space{Name: "child-adds-awkward-values", N: int64(len(awkward)),
 		Desc: func(i int64) any { return clipAny(awkward[i]) },
 		Run: func(c *core.Ctx, i int64) {
@@ -462,7 +501,7 @@ func buildC01(tier string) *core.Plan {
 
 	return &core.Plan{
 		Spaces: func() []core.Space {
-			sp := []core.Space{product, listSpace, shapeSpace, fanout, chain, files, kindSpace, addSpace}
+			sp := []core.Space{product, listSpace, shapeSpace, fanout, chain, files, kindSpace, addSpace, bigSpace}
 			if tier != "thorough" {
 				sp = append(sp, product4)
 			}
